@@ -328,7 +328,7 @@ def _battery(case, nodes):
             item["post"] = [x.path_name for x in iterators.postorder_iter(n)]
             item["level"] = [[x.path_name for x in g] for g in iterators.levelordergroup_iter(n)]
             item["zigzag"] = [x.path_name for x in iterators.zigzag_iter(n)]
-            item["names"] = [x.path_name for x in search.findall(n, lambda z: len(z.node_name) == 1)]
+            item["names"] = [x.path_name for x in search.findall(n, lambda z: len(str(z.node_name)) == 1)]
             item["newick"] = export.tree_to_newick(n)
             item["clone"] = [x.path_name for x in iterators.preorder_iter(helper.clone_tree(n, type(n)))]
             item["copy"] = [x.path_name for x in iterators.preorder_iter(n.copy())]
@@ -398,7 +398,7 @@ def _cop(op):
     if k == "Extend":
         return f"Extend {op[1]} {clist(str(c) for c in op[2])} {clist(_FT[f] for f in op[3])}"
     if k == "DelItem":
-        return f"DelItem {op[1]} {cstr(op[2])} {_FT[op[3]]}"
+        return f"DelItem {op[1]} {cstr(str(op[2]))} {_FT[op[3]]}"
     if k == "Sort":
         return f"Sort {op[1]} {clist('None' if x is None else f'(Some {x})' for x in op[2])} {cbool(op[3])}"
     if k == "SetSep":
@@ -416,7 +416,7 @@ def emit(prop, case, obs):
         assert len(l) == n
     parts = [
         cbool(case["cls"] == "Node"), cbool(case["assert"]), str(n),
-        clist(cstr(s) for s in case["names"]), clist(cstr(s) for s in case["seps"]),
+        clist(cstr(str(s)) for s in case["names"]), clist(cstr(s) for s in case["seps"]),
         clist(_ccop(o) for o in obs.get("ops", case["ops"])),
         clist(cpair(_clinks(l), str(code)) for l, code in obs["trace"]),
         clist(f"({cstr(a)}, {cstr(b)}, {int(d)})" for a, b, d in obs["final"]),
@@ -442,6 +442,9 @@ NAME_POOLS = {
     "affix": ["a", "xa", "ab", "b", "bc", "a", "abc", "b", "c", "xa"],
     "special": ["a.b", "(", "+", "a b", "a'", "0", "a1", "a", "10", "-"],
     "dots": ["*", ".", "..", "a", "*", "b", "..", ".", "c", "*"],     # names that relative-path syntax gives a meaning
+    # names that are not str (the suite has test_path_name_int): ints next to letters; never an int next to its own
+    # decimal string, so "equal names" and "equal rendered names" coincide and the model's str names stay faithful
+    "numeric": [1, 2, "a", 10, 7, "b", 2, 1, 12, "a"],
 }
 SEPS = ["/", "\\", "-", ".", "|"]
 MULTI_SEPS = ["->", "::", "=>", "//", "-|-"]   # separators of more than one character (C03)
@@ -497,18 +500,20 @@ class Shadow:
 def gen_case(rng, prop, cls=None, fault_rate=0.1, invalid_rate=0.15, nmax=8, maxops=18, assertions=True):
     n = rng.randint(3, nmax)
     cls = cls or rng.choice(["Node", "Node", "BaseNode"])
-    pool_name = rng.choice(list(NAME_POOLS))
+    pool_name = rng.choice([k for k in NAME_POOLS if not (prop == "C03" and k == "numeric")])
+    # (C03 keeps to str names: a path string can only be looked up against str names -- Node(1) is not found
+    #  under "/r/1" on the unchanged tree; names are annotated str)
     pool = NAME_POOLS[pool_name]
     off = rng.randrange(len(pool))
     names = [pool[(off + i) % len(pool)] for i in range(n)]
     sep_pool = SEPS
     if prop == "C03":   # the property quantifies over separators that do not occur inside a name
-        sep_pool = [c for c in SEPS if not any(c in nm for nm in names)]
+        sep_pool = [c for c in SEPS if not any(c in str(nm) for nm in names)]
         if rng.random() < 0.35:
             # multi-character separators: mostly inside the theorems' guard (no character of the separator in
             # any name: C03_lookup_roundtrip_multi_partial), sometimes only substring-free (K3 territory)
-            free = [sp for sp in MULTI_SEPS if not any(ch in nm for ch in sp for nm in names)]
-            sub = [sp for sp in MULTI_SEPS if not any(sp in nm for nm in names)]
+            free = [sp for sp in MULTI_SEPS if not any(ch in str(nm) for ch in sp for nm in names)]
+            sub = [sp for sp in MULTI_SEPS if not any(sp in str(nm) for nm in names)]
             multi = free if (free and rng.random() < 0.85) else sub
             if multi:
                 sep_pool = multi
@@ -727,7 +732,7 @@ def matches_finding(prop, entry, case, obs, flags):
         # narrow: some name starts or ends with a character of a multi-character separator in use
         seps = set(case["seps"]) | {op[2] for op in case["ops"] if op and op[0] == "SetSep"}
         return flags == 2 and any(len(sp) >= 2 and nm and (nm[0] in sp or nm[-1] in sp)
-                                  for sp in seps for nm in case["names"])
+                                  for sp in seps for nm in map(str, case["names"]))
     return False
 
 
